@@ -95,6 +95,8 @@ func c10Reference(kind int, cfg c10Cfg, lines []string, hasXReal bool, xreal, di
 	return ents[0]
 }
 
+var c10Echo = echo.New()
+
 func genC10(rng *rand.Rand, n int, emit func(Case), dist map[string]int) {
 	pool := []string{"8.8.8.8", "1.2.3.4", "203.0.113.7", "198.51.100.200", "10.0.0.1", "10.255.255.254", "172.16.0.1", "172.31.255.255", "172.15.0.1", "172.32.0.1",
 		"192.168.1.1", "192.169.0.1", "127.0.0.1", "127.255.0.3", "128.0.0.1", "169.254.10.10", "169.253.0.1", "::1", "::2", "fe80::1", "febf::1", "fec0::1",
@@ -145,7 +147,7 @@ func genC10(rng *rand.Rand, n int, emit func(Case), dist map[string]int) {
 		if rng.Intn(2) == 0 {
 			kind = 2
 		}
-		e := echo.New()
+		e := c10Echo // ONE instance (and so one recycled context) for the whole run: only the extractor changes
 		switch kind {
 		case 0:
 			e.IPExtractor = echo.ExtractIPDirect()
@@ -198,7 +200,7 @@ func genC10(rng *rand.Rand, n int, emit func(Case), dist map[string]int) {
 			}
 			req.Header.Set(echo.HeaderXRealIP, xreal)
 		}
-		c := e.NewContext(req, httptest.NewRecorder())
+		c := recycledContext(e, req, httptest.NewRecorder())
 		got := c.RealIP()
 		want := c10Reference(kind, cfg, lines, hasXReal, xreal, direct)
 		ok, why := true, ""
